@@ -22,3 +22,44 @@ Proof.
   - repeat constructor; unfold waist_call_ok; first [left; repeat split; reflexivity | right; repeat split; reflexivity].
   - repeat split; eexists; eexists; cbn; tauto.
 Qed.
+
+(* ---- SignalConfig / IdlerConfig::try_as_beam (generated compositions): with theta_external_deg the Snell inversion runs on a
+   beam that ALREADY has the requested azimuth and polarization (and nothing re-points it afterwards); with theta_deg both
+   angles are the requested ones *)
+From SpdVerif Require Import Base.Rx Model.Fresnel Gen.Beam Model.Beam Proofs.C13_norm Proofs.C13_beam.
+Local Open Scope R_scope.
+
+Definition external_order_ok (cfg : (beam -> R -> R) -> polarization -> R -> R -> R -> R -> beam) : Prop :=
+  forall snell_inv pol phi_deg theta_e_deg l w,
+  exists s0, beam_inv s0 /\ b_phi s0 = norm_u (phi_deg * (PI / 180)) /\ b_polarization s0 = pol /\
+             cfg snell_inv pol phi_deg theta_e_deg l w = set_theta_external_gen snell_inv s0 (theta_e_deg * (PI / 180)).
+
+Definition internal_ok (cfg : (beam -> R -> R) -> polarization -> R -> R -> R -> R -> beam) : Prop :=
+  forall snell_inv pol phi_deg theta_deg l w,
+  let s := cfg snell_inv pol phi_deg theta_deg l w in
+  beam_inv s /\ b_phi s = norm_u (phi_deg * (PI / 180)) /\ b_theta s = norm_s (theta_deg * (PI / 180)) /\ b_polarization s = pol.
+
+Ltac external_order :=
+  intros snell_inv pol phi_deg theta_e_deg l w;
+  match goal with |- exists s0, _ /\ _ /\ _ /\ ?lhs = _ =>
+    let t := eval unfold signal_config_external_gen, idler_config_external_gen in lhs in
+    match t with set_theta_external_gen _ ?b _ => exists b end
+  end;
+  split; [apply new_inv |]; rewrite beam_new_nf; cbn [b_phi b_polarization];
+  split; [reflexivity | split; [reflexivity |]]; rewrite <- beam_new_nf; reflexivity.
+
+Theorem signal_config_external_order : external_order_ok signal_config_external_gen.
+Proof. unfold external_order_ok. external_order. Qed.
+Theorem idler_config_external_order : external_order_ok idler_config_external_gen.
+Proof. unfold external_order_ok. external_order. Qed.
+
+Ltac internal_angles :=
+  intros snell_inv pol phi_deg theta_deg l w; cbv zeta;
+  unfold signal_config_internal_gen, idler_config_internal_gen;
+  rewrite ?set_angles_nf, ?beam_new_nf; cbn [b_phi b_theta b_polarization b_waist b_frequency];
+  split; [apply inv_of_normal | repeat split; reflexivity].
+
+Theorem signal_config_internal : internal_ok signal_config_internal_gen.
+Proof. unfold internal_ok. internal_angles. Qed.
+Theorem idler_config_internal : internal_ok idler_config_internal_gen.
+Proof. unfold internal_ok. internal_angles. Qed.
